@@ -82,10 +82,12 @@ var waitDuration = func(ctx context.Context, d time.Duration) {
 	}
 	timer := time.NewTimer(d)
 	defer timer.Stop()
+	verifAt("retry.tw0", nil, 0)
 	select {
 	case <-ctx.Done():
 	case <-timer.C:
 	}
+	verifAt("retry.tw1", nil, 0)
 }
 
 var calcExponentialRetry = func(d time.Duration, c uint32) time.Duration {
